@@ -78,17 +78,29 @@ def go_trace(ctx):
     return rows, verdict["bad"]
 
 
-def redo(ctx, line, url=None, tree=None):
-    """Re-execute one trace step alone; returns the real paths it opened."""
-    c = line["concrete"]
-    req = {"root": c["root"], "cwd": c["cwd"], "patterns": c["patterns"] or [], "act": line["act"],
-           "url": c["url"] if url is None else url,
-           "dirs": (tree or {}).get("dirs") or [], "files": (tree or {}).get("files") or []}
-    rout = ctx.path("c17_redo.ndjson")
+def epoch_prefix(trows, i):
+    """The reset line of the epoch of (1-based) trace line i and the concrete
+    operations of the epoch up to and including that line."""
+    j = i - 1
+    while trows[j]["act"] != "reset":
+        j -= 1
+    ops = [trows[k]["concrete"]["op"] for k in range(j + 1, i)]
+    return trows[j], ops
+
+
+def redo(ctx, world, ops):
+    """Execute a logged history again on a fresh instance (same tree, same
+    patterns, same requests in the same order); returns what the LAST
+    operation opened and stored."""
+    req = {"root": world["root"], "cwd": world["cwd"], "patterns": world["patterns"] or [],
+           "dirs": world.get("dirs") or [], "files": world.get("files") or [], "ops": ops}
+    rin, rout = ctx.path("c17_redo_in.json"), ctx.path("c17_redo.ndjson")
+    with open(rin, "w") as fh:
+        json.dump(req, fh)
     if os.path.exists(rout):
         os.remove(rout)
     rc, out = ctx.go_test(PKG, FILES, "^TestZZVerifC17Redo$", timeout=600,
-                          env={"VERIF_OUT": rout, "VERIF_C17_REDO": json.dumps(req)})
+                          env={"VERIF_OUT": rout, "VERIF_C17_REDO": rin})
     rows = [r for r in vlib.read_ndjson(rout) if r.get("kind") == "redo"]
     if rc != 0 or not rows:
         raise vlib.Inconclusive("C17 redo did not complete:\n" + out[-2000:])
@@ -96,37 +108,133 @@ def redo(ctx, line, url=None, tree=None):
 
 
 def judge_trace(ctx, trows, bad):
-    """Classify the lines TLC rejected.  Only 'unsafe' lines whose offending
-    open is seen again when the step is re-executed alone (fresh server, same
-    tree, same patterns, same URL) become disagreements."""
+    """Classify the lines TLC rejected.  An 'unsafe' line becomes a
+    disagreement when the offending open shows again after the whole history
+    of its epoch up to that line is executed again on a fresh instance: what a
+    server does may depend on what it did before, so the step is never
+    re-executed alone."""
     soft = []
-    for b in bad[:12]:
+    for b in bad[:10]:
         line = trows[b["i"] - 1]
-        if b["kind"] != "unsafe" or line["act"] not in ("add", "seturl", "refresh", "inject"):
+        if b["kind"] != "unsafe":
             soft.append((b, line))
             continue
-        suspicious = set("/" + "/".join(p) for p in line["opened"] + line["stored"])
-        # A refresh reads every configured list: find the one that does it.
-        urls = line["concrete"]["list_urls"] if line["act"] == "refresh" else [line["concrete"]["url"]]
-        again = None
-        for u in urls:
-            r = redo(ctx, line, u)
-            if set(r.get("opened") or []) & suspicious:
-                again = dict(r, url=u)
-                break
-        if again is None:
+        reset, ops = epoch_prefix(trows, b["i"])
+        suspicious = set("/" + "/".join(p) for p in b["paths"])
+        again = redo(ctx, reset["concrete"], ops)
+        if not (set((again.get("opened") or []) + (again.get("stored") or [])) & suspicious):
             soft.append(({"i": b["i"], "kind": "not-reproduced"}, line))
             continue
-        reset = next(trows[j] for j in range(b["i"] - 1, -1, -1) if trows[j]["act"] == "reset")
-        rec = {"trace_line": b["i"], "line": line, "redo": again,
-               "tree": {k: reset["concrete"][k] for k in ("root", "dirs", "files")}}
-        ctx.disagreement(classify(rec), rec, "trace line %d (%s of %r under patterns %s) opened/stored %s: "
-                         "rejected by TraceSafePath as unsafe" % (
-                             b["i"], line["act"], again["url"], json.dumps(line["concrete"]["patterns"]),
-                             sorted(suspicious)))
-    if len(bad) > 12:
-        ctx.notes.append("%d further rejected trace lines not examined" % (len(bad) - 12))
+        rec = {"trace_line": b["i"], "line": line, "redo": again, "world": reset["concrete"], "ops": ops,
+               "unsafe": sorted(suspicious)}
+        ctx.disagreement(classify(rec), rec, "trace line %d (%s %r after %d earlier operations on the same instance, "
+                         "patterns %s) opened/stored %s: rejected by TraceSafePath as unsafe" % (
+                             b["i"], line["act"], line["concrete"]["url"], len(ops) - 1,
+                             json.dumps(reset["concrete"]["patterns"]), sorted(suspicious)))
+    if len(bad) > 10:
+        ctx.notes.append("%d further rejected trace lines not examined" % (len(bad) - 10))
     return soft
+
+
+def make_walks(ctx, edges, rng, max_len, budget):
+    """Arrange the edges of the <<pats, known>> graph into walks from the
+    initial state (greedy: take an uncovered edge of the current node, else
+    go to the nearest node that has one).  budget = number of steps, None =
+    until every edge is covered."""
+    def nk(known):
+        return json.dumps(sorted(json.dumps(l, sort_keys=True) for l in known))
+
+    def after(e):
+        k = [json.dumps(l, sort_keys=True) for l in e["src"]]
+        l = json.dumps(e["loc"], sort_keys=True)
+        if e["act"] in ("add", "seturl", "inject") and l not in k:
+            k.append(l)
+        elif e["act"] == "remove":
+            k = [x for x in k if x != l]
+        return json.dumps(sorted(k))
+
+    by_cfg = {}
+    for e in edges:
+        g = by_cfg.setdefault(json.dumps(sorted(e["cfg"])), {})
+        g.setdefault(nk(e["src"]), []).append(e)
+    for g in by_cfg.values():
+        for lst in g.values():
+            lst.sort(key=lambda e: json.dumps([e["act"], e["loc"]], sort_keys=True))
+            rng.shuffle(lst)
+    walks, total, steps = [], len(edges), 0
+    covered = set()
+    cfgs = sorted(by_cfg)
+    pending = {c: sum(len(v) for v in by_cfg[c].values()) for c in cfgs}
+    init = json.dumps([])
+    while any(pending.values()) and (budget is None or steps < budget):
+        c = rng.choice([c for c in cfgs if pending[c]])
+        g = by_cfg[c]
+        node, walk = init, []
+        while len(walk) < max_len:
+            todo = [e for e in g.get(node, []) if id(e) not in covered]
+            if todo:
+                path = [todo[0]]
+            else:
+                # breadth-first search for the nearest node with an uncovered edge
+                seen, frontier, path = {node}, [(node, [])], None
+                while frontier and path is None:
+                    nxt = []
+                    for n, p in frontier:
+                        for e in g.get(n, []):
+                            m = after(e)
+                            if m in seen:
+                                continue
+                            seen.add(m)
+                            if any(id(x) not in covered for x in g.get(m, [])):
+                                path = p + [e]
+                                break
+                            nxt.append((m, p + [e]))
+                        if path is not None:
+                            break
+                    frontier = nxt
+                if path is None:
+                    break
+            for e in path:
+                if id(e) not in covered:
+                    covered.add(id(e))
+                    pending[c] -= 1
+                walk.append({"act": e["act"], "loc": e["loc"], "may": e["may"]})
+                node = after(e)
+        if not walk:
+            break
+        steps += len(walk)
+        walks.append({"t": "w", "cfg": json.loads(c), "steps": walk, "idx": len(walks),
+                      "var": (ctx.seed * 7368787 + len(walks) * 104729) % (1 << 62)})
+    return walks, len(covered), total
+
+
+def go_walk(ctx, tables, walks, tag="w", shards=SHARDS):
+    vin, vout = ctx.path("c17_in_%s.ndjson" % tag), ctx.path("c17_out_%s.ndjson" % tag)
+    work = ctx.path("c17_work_%s" % tag)
+    os.makedirs(work, exist_ok=True)
+    shards = max(1, min(shards, len(walks)))
+    for k in range(shards):
+        vlib.write_ndjson("%s.%d" % (vin, k), [tables] + walks[k::shards])
+    rc, out = ctx.go_test(PKG, FILES, "^TestZZVerifC17Walk$", timeout=1700, go_timeout="28m",
+                          env={"VERIF_IN": vin, "VERIF_OUT": vout, "VERIF_C17_WORK": work,
+                               "VERIF_C17_SHARDS": str(shards)})
+    rows, summs = [], []
+    for k in range(shards):
+        part = vlib.read_ndjson("%s.%d" % (vout, k))
+        summs += [r for r in part if r.get("kind") == "summary"]
+        rows += [r for r in part if r.get("kind") != "summary"]
+    if rc != 0 or len(summs) != shards:
+        raise vlib.Inconclusive("C17 walk harness did not complete (rc=%s, %d/%d shards):\n%s" % (
+            rc, len(summs), shards, out[-3000:]))
+    summ = {"per_act": {}}
+    for s in summs:
+        for key, val in s.items():
+            if key == "per_act":
+                for a, n in val.items():
+                    summ["per_act"][a] = summ["per_act"].get(a, 0) + n
+            elif key != "kind":
+                summ[key] = summ.get(key, 0) + val
+    return rows, summ
 
 
 def action_counts(out):
@@ -198,6 +306,28 @@ def run(ctx):
     if summ["positive"] < 20 or summ["accepted"] < 20:
         problems.append("vacuous: only %d steps opened a permitted file, %d accepted" % (
             summ["positive"], summ["accepted"]))
+    # Direction A, second half: walks over the edges of the state machine,
+    # one live instance per walk.
+    wk = ctx.tlc("SafePath", "SafePath.walk.cfg", workers=6, timeout=600)
+    edges = [v for v in wk["vectors"] if v.get("t") == "e"]
+    if len(edges) < 10000:
+        raise vlib.Inconclusive("edge generation incomplete: %d edges" % len(edges))
+    edges.sort(key=lambda e: json.dumps([e["cfg"], e["src"], e["act"], e["loc"]], sort_keys=True))
+    walks, ecov, etotal = make_walks(ctx, edges, rng, 40, 20000 if ctx.quick else None)
+    ctx.log("walking %d of %d edges in %d walks (%d steps)" % (ecov, etotal, len(walks), sum(len(w["steps"]) for w in walks)))
+    wrows, wsumm = go_walk(ctx, tables, walks)
+    for r in wrows:
+        if r.get("kind") == "bad":
+            ctx.disagreement(classify(r), r, "walk under patterns %s, %d earlier steps on the same instance: %s" % (
+                json.dumps(r.get("patterns") or []), r["at"], r["what"]))
+    wsoft = [r for r in wrows if r.get("kind") in ("mismatch", "instrument", "panic", "skip")]
+    wflaky = [r for r in wrows if r.get("kind") == "flaky"]
+    if wsoft:
+        r = wsoft[0]
+        problems.append("walks: harness/model problem (%s) in %d walks, first: %s" % (
+            r["kind"], len(wsoft), r.get("what") or r.get("err")))
+    if wsumm["positive"] < 20:
+        problems.append("vacuous: only %d walk steps opened a permitted file" % wsumm["positive"])
     # Direction B.
     trows, tbad = go_trace(ctx)
     tsoft = judge_trace(ctx, trows, tbad)
@@ -214,19 +344,22 @@ def run(ctx):
     nt = sum(1 for v in sel if v["add"] or v["refresh"])
     samples = [sel[0], sel[len(sel) // 2], sel[-1], {"trace_line": next((r for r in tsteps if r["opened"]), None)}]
     cov = {
-        "traces_validated_against_impl": summ["n"] + sum(1 for r in trows if r["act"] == "reset"),
+        "traces_validated_against_impl": summ["n"] + wsumm["walks"] + sum(1 for r in trows if r["act"] == "reset"),
+        "edges_generated": etotal, "edges_walked": ecov, "walks": wsumm["walks"], "walk_steps": wsumm["steps"],
+        "walk_steps_that_opened_a_permitted_file": wsumm["positive"], "walk_requests_accepted": wsumm["accepted"],
+        "walk_steps_per_action": wsumm["per_act"], "walk_flaky": len(wflaky),
         "trace_epochs": sum(1 for r in trows if r["act"] == "reset"), "trace_lines": len(trows),
         "trace_lines_rejected": len(tbad), "trace_steps_that_opened_a_file": topened,
         "vectors_generated": len(vectors), "vectors_replayed": len(sel),
         "scenarios_replayed": summ["n"], "steps_observed": summ["steps"],
-        "evaluations": summ["n"] + len(tsteps), "distinct_nontrivial": nt,
+        "evaluations": summ["n"] + wsumm["steps"] + len(tsteps), "distinct_nontrivial": nt,
         "rule": "one vector per reachable state of SafePath.gen.cfg = (pattern list, location); each is replayed through "
                 "up to three entry points (add_url, set_url, configuration file + refresh); non-trivial = the spec "
                 "permits opening a file for it",
         "steps_that_opened_a_permitted_file": summ["positive"], "requests_accepted": summ["accepted"],
         "per_entry": summ["per_entry"], "micros_per_entry": summ.get("micros"), "flaky": len(flaky), "panics": summ["panics"],
         "mc_action_counts": {a: counts[a][0] for a in ACTIONS},
-        "exhaustive": not ctx.quick, "samples": samples, "problems": problems,
+        "exhaustive": (not ctx.quick) and ecov == etotal, "samples": samples, "problems": problems,
     }
     return ctx.finish("model_checking", cov, assumptions=[
         "TLC; conc()/abs() of zz_verif_c17_test.go (rendering of locations and globs, tree layout)",
@@ -238,19 +371,25 @@ def run(ctx):
 def replay(ctx, path):
     rec = json.load(open(path))["record"]
     if "line" in rec:
-        # A trace step: rebuild the tree, re-execute the step alone.
+        # A trace step: rebuild the tree, execute the epoch's history up to the step again.
         line = rec["line"]
-        suspicious = set("/" + "/".join(p) for p in line["opened"] + line["stored"])
-        r = redo(ctx, line, rec["redo"]["url"], rec["tree"])
-        hit = sorted(set(r.get("opened") or []) & suspicious)
-        print(json.dumps({"expected": "no open outside the patterns %s" % json.dumps(line["concrete"]["patterns"]),
-                          "url": rec["redo"]["url"], "observed_opened": r.get("opened"),
-                          "still_outside": hit}, indent=1))
-        return 1 if hit else 0
-    vec = dict(rec["vec"])
-    vec["entries"] = [rec["entry"]]
+        suspicious = set(rec["unsafe"])
+        r = redo(ctx, rec["world"], rec["ops"])
+        seen = set((r.get("opened") or []) + (r.get("stored") or []))
+        print(json.dumps({"expected": "no open outside the patterns %s" % json.dumps(rec["world"]["patterns"]),
+                          "operations": len(rec["ops"]), "observed_last_step": sorted(seen),
+                          "still_outside": sorted(seen & suspicious)}, indent=1))
+        return 1 if seen & suspicious else 0
     gen = ctx.tlc("SafePath", "SafePath.gen.cfg", workers=6, timeout=900)
     tables = [v for v in gen["vectors"] if v.get("t") == "tables"][0]
+    if "walk" in rec:
+        rows, summ = go_walk(ctx, tables, [rec["walk"]], "r", 1)
+        bad = [r for r in rows if r.get("kind") == "bad"]
+        print(json.dumps({"expected_bounds": [st["may"] for st in rec["walk"]["steps"]],
+                          "observed": [b["obs"] for b in bad] or "within bounds"}, indent=1))
+        return 1 if bad else 0
+    vec = dict(rec["vec"])
+    vec["entries"] = [rec["entry"]]
     rows, summ = go_replay(ctx, tables, [vec], "r")
     bad = [r for r in rows if r.get("kind") == "bad"]
     print(json.dumps({"expected_bounds": {k: vec[k] for k in ("add", "seturl", "inject", "refresh")},
